@@ -174,4 +174,344 @@ theorem C04_rule_parse_no_escape_partial (W : World V) (L : Legacy) (hL : L.rule
   safe_auto
   all_goals first | exact hpre _ | exact hpost _ | exact ha _ | exact hv _ _ | exact hc _ _ _ _ | exact hcc _ _ _ _
 
+/-! ## LogicalType.logical_parse -/
+
+theorem safe_allLoop (W : World V) (L : Legacy) (hL : L.allOfRaw = false) (o : Opts) (ts : List Ty) :
+    ∀ v, Safe (allLoop W L o ts v) := by
+  induction ts with
+  | nil => intro v; exact safe_pure _
+  | cons t ts ih =>
+    intro v
+    unfold allLoop
+    simp only [hL, Bool.false_or]
+    apply safe_bind
+    · apply safe_tryExcept
+      intro e
+      apply safe_bind
+      · apply safe_handleError
+        split
+        · assumption
+        · rfl
+      · intro _; exact safe_pure _
+    · intro r
+      cases r with
+      | none => exact safe_pure _
+      | some y => exact ih y
+
+theorem safe_anyStage (W : World V) (stage : Nat) (ts : List Ty) (v : V) : Safe (anyStage W stage ts v) := by
+  induction ts with
+  | nil => exact safe_pure _
+  | cons t ts ih => unfold anyStage; safe_auto
+
+theorem safe_xorLoop (W : World V) (o : Opts) (ts : List Ty) : ∀ v x, Safe (xorLoop W o ts v x) := by
+  induction ts with
+  | nil => intro v x; exact safe_pure _
+  | cons t ts ih =>
+    intro v x
+    unfold xorLoop
+    safe_auto
+    all_goals exact ih _ _
+
+theorem safe_notLoop (W : World V) (o : Opts) (ts : List Ty) (v : V) : Safe (notLoop W o ts v) := by
+  induction ts with
+  | nil => exact safe_pure _
+  | cons t ts ih => unfold notLoop; safe_auto
+
+/-- **a logical type (`&`, `|`, `^`, `~`) lets nothing but ParseError out**, whatever its arguments do -/
+theorem C04_logical_no_escape (W : World V) (o : Opts) (c : Comb) (args : List Ty) (v : V) :
+    Safe (logicalParse W Legacy.none o c args v) := by
+  have h1 := safe_allLoop W Legacy.none rfl o args
+  have h2 := fun k => safe_anyStage W k args v
+  have h3 := safe_xorLoop W o args
+  have h4 := safe_notLoop W o args v
+  unfold logicalParse
+  cases c <;> (dsimp only; safe_auto)
+  all_goals first | exact h1 _ | exact h2 _ | exact h3 _ _ | exact h4
+
+theorem C04_logical_no_escape_partial (W : World V) (L : Legacy) (hL : L.allOfRaw = false) (o : Opts)
+    (c : Comb) (args : List Ty) (v : V) : Safe (logicalParse W L o c args v) := by
+  have h1 := safe_allLoop W L hL o args
+  have h2 := fun k => safe_anyStage W k args v
+  have h3 := safe_xorLoop W o args
+  have h4 := safe_notLoop W o args v
+  unfold logicalParse
+  cases c <;> (dsimp only; safe_auto)
+  all_goals first | exact h1 _ | exact h2 _ | exact h3 _ _ | exact h4
+
+/-! ## fields, data classes -/
+
+theorem safe_fieldConvert (W : DataWorld V) (o : Opts) (f : FieldDecl V) (t : Ty) (v : V) :
+    Safe (fieldConvert W o f t v) := by
+  unfold fieldConvert
+  safe_auto
+
+theorem safe_parseValue (W : DataWorld V) (L : Legacy) (hL : L.discLookup = false) (o : Opts)
+    (f : FieldDecl V) (v : V) : Safe (parseValue W L o f v) := by
+  have h := safe_fieldConvert W o f
+  unfold parseValue
+  simp only [hL]
+  safe_auto
+  all_goals first | exact h _ _ | (simp at *)
+
+/-- **a field's `parse_value` lets nothing but ParseError out** (any converter, any `to_dict`, any
+discriminator lookup) -/
+theorem C04_parse_value_no_escape (W : DataWorld V) (o : Opts) (f : FieldDecl V) (v : V) :
+    Safe (parseValue W Legacy.none o f v) :=
+  safe_parseValue W Legacy.none rfl o f v
+
+theorem safe_parseAddition (W : DataWorld V) (o : Opts) (P : ParserDecl V) (k : Nat) (v : V) :
+    Safe (parseAddition W o P k v) := by
+  unfold parseAddition
+  safe_auto
+
+theorem safe_aliasConflict (W : DataWorld V) (L : Legacy) (hL : L.aliasCompare = false) (a b : V) :
+    Safe (aliasConflict W L a b) := by
+  unfold aliasConflict
+  simp only [hL]
+  safe_auto
+
+def Legacy.dataFixed (L : Legacy) : Bool := !L.aliasCompare && !L.discLookup
+
+theorem safe_dfItems (W : DataWorld V) (L : Legacy) (hL : L.dataFixed = true) (o : Opts) (P : ParserDecl V)
+    (ex : List Nat) (data : List (Nat × V)) : ∀ a, Safe (dfItems W L o P ex data a) := by
+  simp [Legacy.dataFixed] at hL
+  have hpv := safe_parseValue W L hL.2 o
+  have hpa := safe_parseAddition W o P
+  have hac := safe_aliasConflict W L hL.1
+  induction data with
+  | nil => intro a; exact safe_pure _
+  | cons kv rest ih =>
+    intro a
+    obtain ⟨key, v⟩ := kv
+    unfold dfItems
+    safe_auto
+    all_goals first | exact ih _ | exact hpv _ _ | exact hpa _ _ | exact hac _ _
+
+theorem safe_dfMissing (o : Opts) (ex : List Nat) (fs : List (FieldDecl V)) :
+    ∀ a, Safe (dfMissing o ex fs a) := by
+  induction fs with
+  | nil => intro a; exact safe_pure _
+  | cons f fs ih =>
+    intro a
+    unfold dfMissing
+    safe_auto
+    all_goals exact ih _
+
+theorem safe_depsCheck (W : DataWorld V) (o : Opts) (a : Acc V) : Safe (depsCheck W o a) := by
+  unfold depsCheck
+  safe_auto
+
+theorem safe_ffConflicts (W : DataWorld V) (L : Legacy) (hL : L.aliasCompare = false) (o : Opts)
+    (f : FieldDecl V) (value : V) (xs : List V) : Safe (ffConflicts W L o f value xs) := by
+  have hac := safe_aliasConflict W L hL
+  induction xs with
+  | nil => exact safe_pure _
+  | cons x xs ih =>
+    unfold ffConflicts
+    safe_auto
+    all_goals exact hac _ _
+
+theorem safe_ffFields (W : DataWorld V) (L : Legacy) (hL : L.dataFixed = true) (o : Opts) (ex : List Nat)
+    (data : List (Nat × V)) (fs : List (FieldDecl V)) : ∀ a, Safe (ffFields W L o ex data fs a) := by
+  simp [Legacy.dataFixed] at hL
+  have hpv := safe_parseValue W L hL.2 o
+  have hfc := safe_ffConflicts W L hL.1 o
+  induction fs with
+  | nil => intro a; exact safe_pure _
+  | cons f fs ih =>
+    intro a
+    unfold ffFields
+    safe_auto
+    all_goals first | exact ih _ | exact hpv _ _ | exact hfc _ _ _
+
+theorem safe_ffAddition (W : DataWorld V) (o : Opts) (P : ParserDecl V) (used : List Nat)
+    (data : List (Nat × V)) : ∀ acc, Safe (ffAddition W o P used data acc) := by
+  have hpa := safe_parseAddition W o P
+  induction data with
+  | nil => intro acc; exact safe_pure _
+  | cons kv rest ih =>
+    intro acc
+    obtain ⟨k, v⟩ := kv
+    unfold ffAddition
+    safe_auto
+    all_goals first | exact ih _ | exact hpa _ _
+
+theorem safe_parseData (W : DataWorld V) (L : Legacy) (hL : L.dataFixed = true) (o : Opts)
+    (P : ParserDecl V) (ex : List Nat) (data : List (Nat × V)) : Safe (parseData W L o P ex data) := by
+  have h1 := safe_dfItems W L hL o P ex data
+  have h2 := safe_dfMissing o ex P.fields
+  have h3 := safe_depsCheck W o
+  have h4 := safe_ffFields W L hL o ex data P.fields
+  have h5 := safe_ffAddition W o P
+  unfold parseData dataFirstParse fieldFirstParse
+  safe_auto
+  all_goals first | exact h1 _ | exact h2 _ | exact h3 _ | exact h4 _ | exact h5 _ _ _
+
+/-- **`parse_data` (data-first and field-first) lets nothing but ParseError out**: every field
+conversion, alias comparison, addition conversion and bookkeeping error is a ParseError -/
+theorem C04_parse_data_no_escape (W : DataWorld V) (o : Opts) (P : ParserDecl V) (ex : List Nat)
+    (data : List (Nat × V)) : Safe (parseData W Legacy.none o P ex data) :=
+  safe_parseData W Legacy.none rfl o P ex data
+
+theorem safe_parserCall (W : DataWorld V) (L : Legacy) (hL : L.dataFixed = true) (o : Opts)
+    (P : ParserDecl V) (data : List (Nat × V)) : Safe (parserCall W L o P data) := by
+  have h := safe_parseData W L hL o P [] data
+  unfold parserCall
+  safe_auto
+
+/-- **data-class construction `Cls(**kwargs)`**: only ParseError, unless the developer's own
+`__post_init__`/`__validate__` raises something else -/
+theorem C04_class_init_no_escape (W : DataWorld V) (o : Opts) (P : ParserDecl V) (postInit : M Unit)
+    (hpost : Safe postInit) (kw : List (Nat × V)) : Safe (classInit W Legacy.none o P postInit kw) := by
+  have h := safe_parserCall W Legacy.none rfl o P kw
+  unfold classInit
+  safe_auto
+
+/-- **`Cls.__from__(data)` / nested data-class conversion**: only ParseError, for any input object —
+provided the keyword unpacking `**data` itself does not fail, i.e. the mapping is string-keyed at the
+top level (the property's own proviso) or `cast_keyword_str` made it so -/
+theorem C04_init_dataclass_no_escape (W : DataWorld V) (o : Opts) (P : ParserDecl V) (postInit : M Unit)
+    (hpost : Safe postInit) (hunpack : ∀ d, Safe (W.unpack d)) (data : V) :
+    Safe (initDataclass W Legacy.none o P postInit data) := by
+  have h := fun kw => C04_class_init_no_escape W o P postInit hpost kw
+  unfold initDataclass
+  safe_auto
+  all_goals first | exact h _ | exact hunpack _
+
+/-- **no instance on error**: when parsing fails, construction *is* that failure — attribute assignment
+and the post-init hook are never sequenced and the context is left exactly as parsing left it -/
+theorem C04_no_instance_on_error (W : DataWorld V) (L : Legacy) (o : Opts) (P : ParserDecl V)
+    (postInit : M Unit) (kw : List (Nat × V)) (s : St) (e : Exc)
+    (hfail : (parserCall W L o P kw s).1 = .raise e) :
+    classInit W L o P postInit kw s = (.raise e, (parserCall W L o P kw s).2) := by
+  unfold classInit
+  rw [bind_apply]
+  rcases h : parserCall W L o P kw s with ⟨r, s'⟩
+  rw [h] at hfail
+  simp only at hfail
+  subst hfail
+  rfl
+
+/-- the trace reading: a failed construction adds no `attrsSet`/`postInit` event of its own -/
+theorem C04_no_instance_on_error_trace (W : DataWorld V) (L : Legacy) (o : Opts) (P : ParserDecl V)
+    (postInit : M Unit) (kw : List (Nat × V)) (s : St) (e : Exc)
+    (hfail : (parserCall W L o P kw s).1 = .raise e) :
+    (classInit W L o P postInit kw s).2.trace = (parserCall W L o P kw s).2.trace := by
+  rw [C04_no_instance_on_error W L o P postInit kw s e hfail]
+
+/-! ## decorated functions -/
+
+theorem safe_parsePosType (W : DataWorld V) (o : Opts) (F : FuncDecl V) (i : Nat) (v : V) :
+    Safe (parsePosType W o F i v) := by
+  unfold parsePosType
+  safe_auto
+
+theorem safe_posArgs (W : DataWorld V) (L : Legacy) (hL : L.discLookup = false) (o : Opts) (F : FuncDecl V)
+    (xs : List V) : ∀ i args keys, Safe (posArgs W L o F xs i args keys) := by
+  have hpv := safe_parseValue W L hL o
+  have hpt := safe_parsePosType W o F
+  induction xs with
+  | nil => intro i args keys; exact safe_pure _
+  | cons x xs ih =>
+    intro i args keys
+    unfold posArgs
+    safe_auto
+    all_goals first | exact ih _ _ _ | exact hpv _ _ | exact hpt _ _
+
+theorem safe_posOnlyMissing (o : Opts) (fs : List (FieldDecl V)) :
+    ∀ args keys, Safe (posOnlyMissing o fs args keys) := by
+  induction fs with
+  | nil => intro args keys; exact safe_pure _
+  | cons f fs ih =>
+    intro args keys
+    unfold posOnlyMissing
+    safe_auto
+    all_goals exact ih _ _
+
+theorem safe_parseParams (W : DataWorld V) (L : Legacy) (hL : L.dataFixed = true) (o : Opts)
+    (F : FuncDecl V) (args : List V) (kw : List (Nat × V)) : Safe (parseParams W L o F args kw) := by
+  have h1 := safe_posArgs W L (by simp [Legacy.dataFixed] at hL; exact hL.2) o F args
+  have h2 := safe_posOnlyMissing o F.posOnly
+  have h3 := fun ex => safe_parseData W L hL o F.parser ex kw
+  unfold parseParams
+  safe_auto
+  all_goals first | exact h1 _ _ _ | exact h2 _ _ | exact h3 _
+
+/-- **argument parsing of a decorated function lets nothing but ParseError out** -/
+theorem C04_parse_params_no_escape (W : DataWorld V) (o : Opts) (F : FuncDecl V) (args : List V)
+    (kw : List (Nat × V)) : Safe (parseParams W Legacy.none o F args kw) :=
+  safe_parseParams W Legacy.none rfl o F args kw
+
+theorem safe_parseResult (W : DataWorld V) (o : Opts) (F : FuncDecl V) (r : V) :
+    Safe (parseResult W o F r) := by
+  unfold parseResult
+  safe_auto
+
+/-- **no body on error**: when argument parsing fails, the call *is* that failure: the result and the
+final context do not mention the body — it is never entered, whatever it would have done -/
+theorem C04_no_body_on_error (W : DataWorld V) (L : Legacy) (o : Opts) (F : FuncDecl V)
+    (body : List V → List (Nat × V) → M V) (args : List V) (kw : List (Nat × V)) (s : St) (e : Exc)
+    (hfail : (parseParams W L o F args kw s).1 = .raise e) :
+    syncCall W L o F body args kw s = (.raise e, (parseParams W L o F args kw s).2) := by
+  unfold syncCall
+  rw [bind_apply]
+  rcases h : parseParams W L o F args kw s with ⟨r, s'⟩
+  rw [h] at hfail
+  simp only at hfail
+  subst hfail
+  rfl
+
+/-- hence two different bodies cannot be told apart through a call whose arguments do not parse -/
+theorem C04_body_irrelevant_on_error (W : DataWorld V) (L : Legacy) (o : Opts) (F : FuncDecl V)
+    (body body' : List V → List (Nat × V) → M V) (args : List V) (kw : List (Nat × V)) (s : St) (e : Exc)
+    (hfail : (parseParams W L o F args kw s).1 = .raise e) :
+    syncCall W L o F body args kw s = syncCall W L o F body' args kw s := by
+  rw [C04_no_body_on_error W L o F body args kw s e hfail,
+      C04_no_body_on_error W L o F body' args kw s e hfail]
+
+/-- **the only non-ParseError exception a decorated call can produce is one its own body raised**:
+the arguments parsed, the body was entered with them, and the body itself ended with that exception -/
+theorem C04_call_escape_only_from_body (W : DataWorld V) (o : Opts) (F : FuncDecl V)
+    (body : List V → List (Nat × V) → M V) (args : List V) (kw : List (Nat × V)) (s : St)
+    (hesc : (syncCall W Legacy.none o F body args kw s).1.escapes = true) :
+    ∃ p s1, parseParams W Legacy.none o F args kw s = (.ok p, s1) ∧
+      (body p.1 p.2 { s1 with trace := s1.trace ++ [.enterBody] }).1.escapes = true := by
+  have hp := (C04_parse_params_no_escape W o F args kw).h s
+  unfold syncCall at hesc
+  rw [bind_apply] at hesc
+  rcases h : parseParams W Legacy.none o F args kw s with ⟨r, s1⟩
+  rw [h] at hesc hp
+  cases r with
+  | raise e => simp only [Res.escapes] at hesc hp; rw [hp] at hesc; cases hesc
+  | diverge => simp [Res.escapes] at hesc
+  | ok p =>
+    refine ⟨p, s1, rfl, ?_⟩
+    simp only at hesc
+    rw [bind_apply] at hesc
+    simp only [emit] at hesc
+    rw [bind_apply] at hesc
+    rcases hb : body p.1 p.2 { s1 with trace := s1.trace ++ [.enterBody] } with ⟨rb, s2⟩
+    rw [hb] at hesc
+    cases rb with
+    | raise e => simpa using hesc
+    | diverge => simp [Res.escapes] at hesc
+    | ok r =>
+      simp only at hesc
+      have := (safe_parseResult W o F r).h s2
+      rw [this] at hesc
+      cases hesc
+
+/-- corollary: a body that raises only ParseErrors (or nothing) gives a call that does too -/
+theorem C04_call_no_escape (W : DataWorld V) (o : Opts) (F : FuncDecl V)
+    (body : List V → List (Nat × V) → M V) (hbody : ∀ a k, Safe (body a k)) (args : List V)
+    (kw : List (Nat × V)) : Safe (syncCall W Legacy.none o F body args kw) := by
+  constructor
+  intro s
+  cases hesc : (syncCall W Legacy.none o F body args kw s).1.escapes with
+  | false => rfl
+  | true =>
+    obtain ⟨p, s1, _, hb⟩ := C04_call_escape_only_from_body W o F body args kw s hesc
+    rw [(hbody p.1 p.2).h] at hb
+    cases hb
+
 end Utv.C04
